@@ -12,17 +12,23 @@
 (*   "mode"  - output depends on the integer mode the thread had *before*     *)
 (*             the job (a compile path that does not install its own mode)    *)
 (*   "noguard" - the mode guard is not dropped on the error path              *)
+(*   "hash"  - output depends on the iteration order of a hash set, i.e. on   *)
+(*             the hash seed the process drew at start (a greedy search that  *)
+(*             tries candidates in set-iteration order: deinline.rs before    *)
+(*             the repair 53721f9)                                            *)
 EXTENDS Integers, Sequences, FiniteSets, TLC
 CONSTANTS Threads, Jobs, StartCtrs, Leak, MaxJobs, MaxRestarts
 \* a job: [id, fix (the dialect's integer mode), draws (names drawn), fails (ends in an error), sets (installs its mode)]
 
-VARIABLES ctr, mode, guards, running, drawn, out, done, hist, start, restarts
-vars == <<ctr, mode, guards, running, drawn, out, done, hist, start, restarts>>
+VARIABLES ctr, mode, guards, running, drawn, out, done, hist, start, restarts, seed
+vars == <<ctr, mode, guards, running, drawn, out, done, hist, start, restarts, seed>>
+\* hash seeds a process can draw (two suffice: the order of a two-element set is either way round)
+Seeds == {0, 1}
 NoJob == [id |-> 0, fix |-> TRUE, draws |-> 0, fails |-> FALSE, sets |-> TRUE]
 
 \* start = <<counter, mode>> of the current process; a process is started with any of them
 Init == /\ \E c \in StartCtrs, m \in BOOLEAN : start = <<c, m>> /\ ctr = c /\ mode = [t \in Threads |-> m]
-        /\ restarts = 0
+        /\ restarts = 0 /\ seed \in Seeds
         /\ guards = [t \in Threads |-> <<>>]
         /\ running = [t \in Threads |-> NoJob]
         /\ drawn = [t \in Threads |-> <<>>]
@@ -36,11 +42,11 @@ Begin(t, j) == /\ running[t].id = 0 /\ done + Cardinality({u \in Threads : runni
                /\ mode' = [mode EXCEPT ![t] = IF j.sets THEN j.fix ELSE @]
                /\ drawn' = [drawn EXCEPT ![t] = <<>>]
                /\ hist' = Append(hist, <<"begin", t, j.id, mode[t]>>)
-               /\ UNCHANGED <<ctr, out, done, start, restarts>>
+               /\ UNCHANGED <<ctr, out, done, start, restarts, seed>>
 Gensym(t) == /\ running[t].id # 0 /\ Len(drawn[t]) < running[t].draws
              /\ ctr' = ctr + 1
              /\ drawn' = [drawn EXCEPT ![t] = Append(@, ctr + 1)]
-             /\ UNCHANGED <<mode, guards, running, out, done, hist, start, restarts>>
+             /\ UNCHANGED <<mode, guards, running, out, done, hist, start, restarts, seed>>
 
 Digits(n) == IF n < 10 THEN 1 ELSE IF n < 100 THEN 2 ELSE IF n < 1000 THEN 3 ELSE IF n < 10000 THEN 4 ELSE 5
 \* decimal strings compare: a shorter string that is a prefix-wise smaller ... for numbers a < b:
@@ -57,6 +63,8 @@ Output(j, ns, before) ==
     [] Leak = "order" -> <<j.id, OrderSig(ns)>>
     [] Leak = "text"  -> <<j.id, ns>>
     [] Leak = "mode"  -> IF j.sets THEN <<j.id>> ELSE <<j.id, before>>
+    \* a greedy search over the (two) synthesised functions of the job, tried in hash order: the first candidate wins
+    [] Leak = "hash"  -> IF j.draws >= 2 THEN <<j.id, seed>> ELSE <<j.id>>
     [] OTHER -> <<j.id>>
 
 End(t) == /\ running[t].id # 0 /\ Len(drawn[t]) = running[t].draws
@@ -69,14 +77,14 @@ End(t) == /\ running[t].id # 0 /\ Len(drawn[t]) = running[t].draws
                 /\ hist' = Append(hist, <<"end", t, j.id, j.fails>>)
           /\ running' = [running EXCEPT ![t] = NoJob]
           /\ done' = done + 1
-          /\ UNCHANGED <<ctr, drawn, start, restarts>>
+          /\ UNCHANGED <<ctr, drawn, start, restarts, seed>>
 
 Idle == \A t \in Threads : running[t].id = 0
 \* a new process: fresh counter and thread modes; the observations made so far are kept, since
 \* "the same source always gives the same output" quantifies over processes as well
 Restart(c, m) == /\ Idle /\ restarts < MaxRestarts /\ done > 0
                  /\ restarts' = restarts + 1 /\ start' = <<c, m>> /\ ctr' = c /\ mode' = [t \in Threads |-> m]
-                 /\ done' = 0 /\ hist' = <<>>
+                 /\ done' = 0 /\ hist' = <<>> /\ seed' \in Seeds
                  /\ UNCHANGED <<guards, running, drawn, out>>
 
 Next == \/ \E t \in Threads : (\E j \in Jobs : Begin(t, j)) \/ Gensym(t) \/ End(t)
